@@ -164,6 +164,33 @@ def invCertOk (b : Bandit Nat) : Bool :=
     !lp.kind.isLinear || lp.st.all fun p => !p.2.inited || !p.2.rngPriv || isInverseCert p.2.A p.2.Ainv
   chk b.lp && b.lps.all chk
 
+/-! ### the abstract state (compared with the abstraction of the real object graph after every step) -/
+
+def showVec (v : Vec) : String := ",".intercalate (v.map showRat)
+def showMat (m : Mat) : String := ";".intercalate (m.map showVec)
+
+def showArmSt (a : Nat) (r : ArmSt Nat) : String :=
+  let flag (b : Bool) : String := if b then "1" else "0"
+  "@".intercalate [toString a, toString r.cnt, showRat r.sum, showRat r.mean, showExpect r.exp, showRat r.succ, showRat r.fail,
+    flag r.trained ++ flag r.warm ++ flag r.inited, (match r.warmBy with | some w => toString w | none => "-"),
+    showMat r.A, showVec r.Xty, showVec r.beta, showMat r.Ainv, showVec r.mu, showVec r.sc]
+
+def showLP (lp : LP Nat) : String :=
+  s!"{lp.total}&" ++ (match lp.numFeatures with | some d => toString d | none => "-") ++ "&"
+    ++ ",".intercalate (lp.arms.map toString) ++ "&" ++ "!".intercalate (lp.st.map fun p => showArmSt p.1 p.2)
+
+def showState (b : Bandit Nat) : String :=
+  "#".intercalate [
+    "fit:" ++ (if b.isFit then "1" else "0"),
+    "lp:" ++ showLP b.lp,
+    "hist:" ++ "!".intercalate (b.hist.map fun r => s!"{r.arm}@{showRat r.reward}@{showVec r.ctx}"),
+    "npexp:" ++ showDict b.npExp,
+    "tab:" ++ "%".intercalate (b.tables.map fun t => "!".intercalate (t.map fun p => s!"{p.1}@" ++ ",".intercalate (p.2.map toString))),
+    "lab:" ++ ",".intercalate (b.labels.map toString),
+    "lps:" ++ "%".intercalate (b.lps.map showLP),
+    "leaf:" ++ "!".intercalate (b.leafRewards.map fun p =>
+        s!"{p.1}@" ++ ";".intercalate (p.2.map fun q => s!"{q.1}>" ++ showVec q.2))]
+
 def finish (st : DState) (b : Bandit Nat) (so : StepOut Nat) (g : Rng) (isPredict : Bool) (isQuery : Bool) :
     DState × String :=
   let head := match so.err with
@@ -179,6 +206,7 @@ def finish (st : DState) (b : Bandit Nat) (so : StepOut Nat) (g : Rng) (isPredic
     ++ " | reqs=" ++ " ".intercalate (g.reqs.map showReq)
     ++ " | ties=" ++ ",".intercalate (so.out.ties.map fun t => if t then "1" else "0")
     ++ " | flags=" ++ ",".intercalate flags
+    ++ " | state=" ++ showState b
   ({ st with bandit := some b, tape := [], oracle := {} }, line)
 
 def parseTrain? (toks : List String) : Option (TrainArgs Nat) := do
